@@ -137,3 +137,16 @@ PROPS["C10"] = {
                    "the real code is exercised with calls racing Close and a goroutine census",
     "timeout": {"quick": 600, "thorough": 1500},
 }
+
+PROPS["C13"] = {
+    "props_files": ["Props/C13.v"],
+    "go_tests": ["TestVerifFlight"],
+    "level": "proof",
+    "rule": "scripted schedules on the real Group.Do: callers entering on 3 keys while loads are in flight (the loader is the leader's yield point, "
+            "joiners are detected through the record's dups counter), loads ending with ok / error / panic / Goexit, call records being re-issued "
+            "from the pool across consecutive loads; non-trivial = >= 3 steps; distinct = sha1 of the schedule",
+    "trusted_base": [KERNEL, EXTRACT, HARNESS,
+                     "modelled, not verified: sync.WaitGroup / sync.Mutex / sync.Pool (the pool may hand out any record that was put back), panics and Goexit as outcome codes"],
+    "assumptions": ["callers that arrive between the end of the loader and the table cleanup are not scheduled by the harness (needs a hook; see DESIGN F17)"],
+    "explanation": "single-flight invariants over all schedules of the model; results per caller compared with the real Group",
+}
